@@ -334,6 +334,17 @@ func (e *Evaluator) regexpOf(v ssa.Value) (string, bool) {
 		if cal := x.Common().StaticCallee(); cal != nil && cal.Pkg != nil && cal.Pkg.Pkg.Path() == "regexp" && cal.Name() == "MustCompile" {
 			return constStr(x.Common().Args[0])
 		}
+		// a compile wrapper of the module: one parameter, one block, `return regexp.MustCompile(param)`
+		if cal := x.Common().StaticCallee(); cal != nil && cal.Pkg != nil && strings.HasPrefix(cal.Pkg.Pkg.Path(), load.ModPath) && len(cal.Params) == 1 && len(cal.Blocks) == 1 && len(x.Common().Args) == 1 {
+			ins := cal.Blocks[0].Instrs
+			if ret, ok := ins[len(ins)-1].(*ssa.Return); ok && len(ret.Results) == 1 {
+				if in, ok := ret.Results[0].(*ssa.Call); ok {
+					if c2 := in.Common().StaticCallee(); c2 != nil && c2.Pkg != nil && c2.Pkg.Pkg.Path() == "regexp" && c2.Name() == "MustCompile" && in.Common().Args[0] == ssa.Value(cal.Params[0]) {
+						return constStr(x.Common().Args[0])
+					}
+				}
+			}
+		}
 	}
 	return "", false
 }
